@@ -10,6 +10,7 @@ import (
 	"sort"
 	"sync"
 	"sync/atomic"
+	"time"
 
 	"verif/core"
 
@@ -437,8 +438,9 @@ type chanStats struct {
 // are a function of (channel, sequence number, size) and do not influence
 // control flow, so two histories reaching the same named state have the same
 // futures up to renaming of contents.
-func (c *ctx) exploreChan(maxDepth int) chanStats {
+func (c *ctx) exploreChan(maxDepth int, deadline time.Time, progress func(string)) chanStats {
 	var st chanStats
+	var lastLevel time.Duration
 	const shards = 64
 	type shard struct {
 		mu sync.Mutex
@@ -454,6 +456,11 @@ func (c *ctx) exploreChan(maxDepth int) chanStats {
 	st.states = 1
 	frontier := [][]byte{{}}
 	for depth := 1; depth <= maxDepth; depth++ {
+		// a level takes about 6x the time of the previous one
+		if !deadline.IsZero() && depth > 6 && time.Now().Add(6*lastLevel).After(deadline) {
+			break
+		}
+		levelStart := time.Now()
 		type nxt struct {
 			mu sync.Mutex
 			m  map[[16]byte][]byte
@@ -578,6 +585,8 @@ func (c *ctx) exploreChan(maxDepth int) chanStats {
 		st.merges = st.transitions - st.violating - (st.states - 1)
 		st.perDepth = append(st.perDepth, len(frontier))
 		st.maxDepth = depth
+		lastLevel = time.Since(levelStart)
+		progress(fmt.Sprintf("channel depth %d: %d new states, %d transitions so far", depth, len(frontier), st.transitions))
 		if len(frontier) > 0 && depth%3 == 0 {
 			h := frontier[len(frontier)/2]
 			ops := make([]int, len(h))
